@@ -188,6 +188,9 @@ class ProgramRunner(object):
                     s.execute(t.insert().values(**vals))      # values inside the statement
                 else:
                     s.execute(t.insert(), vals)               # values as execution parameters
+            elif style == 'values':
+                # the values are literals inside the WHERE clause of the statement
+                s.execute(t.delete().where(sa.and_(*[t.c[k] == v for k, v in vals.items()])))
             else:
                 s.execute(t.delete().where(sa.and_(*[t.c[k] == sa.bindparam(k) for k in vals])), vals)
         elif op == 'activity':
